@@ -138,7 +138,62 @@ def case_build_encoded(acc, host, user, password, port):
     return tuple(u.__getstate__()[0])
 
 
-CASES = {"ctor": case_ctor, "trace": case_trace, "build_encoded": case_build_encoded}
+LIGHT = [False]
+
+
+def route_case(acc, rname, w):
+    """Text content through every entry point (vlib.routes): the object as produced against its cache-free twin."""
+    from vlib import routes
+    acc.evals += 1
+    try:
+        u = routes.ROUTES[rname].fn(w)
+    except (ValueError, TypeError):
+        acc.count("rejected")
+        return None
+    except Exception:  # noqa: BLE001
+        acc.count("other_exception")
+        return None
+    acc.nontrivial += 1
+    if LIGHT[0]:
+        o = observe(u)
+        t = pickle.loads(pickle.dumps(u))
+        d = diff(o, observe(t))
+        if d or tuple(t.__getstate__()[0]) != tuple(u.__getstate__()[0]):
+            acc.viol("route", (rname, w), observed={"twin": "pickle", "diff": [[n, a, b] for n, a, b in d][:8], "str": o[0:1]}, expected="identical observations",
+                     msg="route%r vs its pickle twin: accessors differ: %r" % ((rname, w), [(n, a, b) for n, a, b in d][:4]))
+    else:
+        compare(acc, "route", (rname, w), u)
+    return tuple(u.__getstate__()[0])
+
+
+def case_route(acc, rname, w):
+    LIGHT[0] = False
+    return route_case(acc, rname, w)
+
+
+def task_routes(listname, gi, ngroups, spnames, light):
+    from vlib import routes, sweep
+    LIGHT[0] = light
+    QUICK[0] = light
+    acc = Acc(ID, impl.backend)
+    states = set()
+    last = None
+    for spname in spnames:
+        ws = sweep.space(spname)
+        for rname in getattr(routes, listname)[gi::ngroups]:
+            for w in ws:
+                st = route_case(acc, rname, w)
+                if st is not None:
+                    states.add(st)
+                    last = (rname, w, st)
+    LIGHT[0] = False
+    acc.state_count = len(states)
+    if last:
+        acc.sample({"route": last[0], "word": last[1], "state": last[2], "backend": impl.backend}, 1)
+    return acc.result()
+
+
+CASES = {"ctor": case_ctor, "trace": case_trace, "build_encoded": case_build_encoded, "route": case_route}
 
 
 def task_build_encoded(maxlen, shard, quick=True):
@@ -215,7 +270,19 @@ def plan(ctx):
             tasks.append(("checks.C09", "task_hosts", (part, 8, quick), b, "h"))
         for sh in A.shard_prefixes(A.DELIM, 2 if quick else 3, 1):
             tasks.append(("checks.C09", "task_build_encoded", (2 if quick else 3, sh, quick), b, "be"))
-    ctx.notes["bounds"] = {"delimiter_alphabet": A.DELIM, "max_word_length": "3 (4 for prefix '//' with auto-encoding)" if quick else k, "prefixes": PREFIXES, "bfs_depth": 2 if quick else 3}
+        # text content (not only structure): every entry point of vlib.routes, incl. the constructor under the context matrix
+        rs = ("F1", "X2") if quick else ("F1", "X2", "K3")
+        for gi in range(24):
+            tasks.append(("checks.C09", "task_routes", ("NAMES", gi, 24, rs, quick), b, "r"))
+        for gi in range(8):
+            tasks.append(("checks.C09", "task_routes", ("NAMES_SUB", gi, 8, ("F1",), quick), b, "rs"))
+            tasks.append(("checks.C09", "task_routes", ("NAMES_CTX1", gi, 8, ("F1", "K2"), quick), b, "x1"))
+        for gi in range(16):
+            tasks.append(("checks.C09", "task_routes", ("NAMES_CTX2", gi, 16, ("F1",), quick), b, "x2"))
+    from vlib import sweep as _sw
+    ctx.notes["context_routes"] = _sw.ctx_note()
+    ctx.notes["bounds"] = {"route_word_spaces": "F1, X2 (thorough: + K3) through every route of vlib.routes; quick compares the object with its pickle twin only, thorough with all twins",
+                           "delimiter_alphabet": A.DELIM, "max_word_length": "3 (4 for prefix '//' with auto-encoding)" if quick else k, "prefixes": PREFIXES, "bfs_depth": 2 if quick else 3}
     return tasks
 
 
